@@ -89,7 +89,7 @@ def render(entries, rng):
 
 
 def plan(seed, tier):
-    n = 32 if tier == "quick" else 640
+    n = 32 if tier == "quick" else 5000
     return [{"class": "decoys", "index": i, "reps": 20, "cost": 1} for i in range(n)]
 
 
